@@ -3,6 +3,7 @@ package main
 import (
 	"bufio"
 	"fmt"
+	"go/types"
 	"os"
 	"os/exec"
 	"path/filepath"
@@ -163,6 +164,13 @@ func runOneControl(pr *rules.Property, repo, patch string, known map[string]bool
 	defer rules.Forget(p)
 	rp := core.NewReport(pr.Meta.ID, p)
 	pr.Run(p, rp)
+	if nBad(rp) > 0 {
+		for _, mode := range []func(*core.Program) func(*types.Func) bool{rules.Anchors, rules.AnchorsByName} {
+			if rn := runNormalised(pr, dst, core.Configs[0], p, mode); rn != nil && nBad(rn) < nBad(rp) {
+				rp = rn
+			}
+		}
+	}
 	for _, o := range rp.Obs {
 		if (o.Status == core.Violated || o.Status == core.Undecided) && !known[o.Key] {
 			flagged = append(flagged, o.Key+" @ "+o.Pos)
